@@ -7,6 +7,38 @@ class SpecError(Exception):
     pass
 
 
+def expand_for(lines):
+    """'@function NAME for=T:A,B;I:X,Y' (or @harness ...) : the directive and its indented clause lines are
+    repeated once per tuple with $T, $I ... substituted"""
+    out = []
+    i = 0
+    while i < len(lines):
+        l = lines[i]
+        m = re.match(r'^(@function|@harness)\s+(.*?)\s+for=(\S+)\s*(.*)$', l.split(' ##')[0].rstrip())
+        if not m:
+            out.append(l)
+            i += 1
+            continue
+        block = [m.group(1) + ' ' + m.group(2) + (' ' + m.group(4) if m.group(4) else '')]
+        i += 1
+        while i < len(lines) and (lines[i].startswith(' ') or lines[i].startswith('\t') or not lines[i].strip()) \
+                and not lines[i].strip().startswith('@function') and not lines[i].strip().startswith('@harness'):
+            block.append(lines[i])
+            i += 1
+        vars_ = []
+        for part in m.group(3).split(';'):
+            k, _, vs = part.partition(':')
+            vars_.append((k, vs.split(',')))
+        n = len(vars_[0][1])
+        for j in range(n):
+            for b in block:
+                t = b
+                for k, vs in sorted(vars_, key=lambda kv: -len(kv[0])):
+                    t = t.replace('$' + k, vs[j])
+                out.append(t)
+    return out
+
+
 def parse_spec(path):
     cfg = {'record_names': {}, 'extern_c': [], 'trivial_externals': [], 'roots': [], 'prelude': [],
            'midlude': [], 'postlude': [], 'includes': [], 'defines': [], 'stub_functions': [],
@@ -27,6 +59,7 @@ def parse_spec(path):
             i += 1
         merged.append(l)
         i += 1
+    merged = expand_for(merged)
     for raw in merged:
         line = raw.split(' ##')[0].rstrip()
         if not line.strip() or line.strip().startswith('#'):
